@@ -209,6 +209,7 @@ class Interp:
         self.heap[oid] = obj
         obj.shared = getattr(self, "alloc_ctx", None)
         obj.born_loops = tuple(self.loop_ctx)
+        obj.born_seq = len(self.events)
         return Ref(oid, obj.kind)
 
     def note_mutation(self, ref, o, how, node):
@@ -873,6 +874,7 @@ class _ExprMixin:
         res = self.alloc(DictObj(self.born_now()) if typ == "dict"
                          else ListObj(self.born_now(), [], "list" if typ != "set" else "set"))
         tmp = "<comp%d>" % res.oid
+        self.heap[res.oid].comp = typ
         fr = self.frames[-1]
         fr.env[tmp] = res
 
@@ -2324,6 +2326,66 @@ class _ExtMixin:
             self.set_attr(a[0], name.v, a[2], n)
             return NONE
         raise AnalysisError("setattr with a non-constant attribute name: %r" % (name,))
+
+    def seq_items(self, v, n):
+        """items of a list / comprehension / generator argument of next(), any(), all()"""
+        v = self.simp(v)
+        if isinstance(v, GenV):
+            res = self.mk_list([])
+            o = self.heap[res.oid]
+            o.comp = "gen"
+            self.run_generator(v, lambda val: self.list_method(res, o, "append", [val], {}, n), n)
+            return o.items
+        lo = self.as_list(v)
+        if lo is not None:
+            return lo.items
+        if isinstance(v, Const) and isinstance(v.v, (tuple, list)):
+            return [("v", Const(x), TRUE) for x in v.v]
+        return None
+
+    def x_next(self, a, k, n):
+        items = self.seq_items(a[0], n)
+        if items is None:
+            return Op("call:next", *a)
+        has_default = len(a) > 1
+        res = a[1] if has_default else Undef("StopIteration")
+        none = []
+        for it in reversed(items):
+            if it[0] == "v":
+                res = ite(it[2], it[1], res)
+                none.append(not_(it[2]))
+            else:
+                ex = Op("exists", Const(it[1].lid), it[3])
+                res = ite(ex, Op("loopret", Const(it[1].lid), it[2]), res)
+                none.append(not_(ex))
+        if not has_default:
+            empty = and_(*none)
+            if empty != FALSE:
+                self.event("raise", (Op("call:StopIteration"),), n)
+                self.note_raise(and_(self.local_guard(state=True), empty))
+        return res
+
+    def _quant(self, a, n, want):
+        items = self.seq_items(a[0], n)
+        if items is None:
+            return None
+        hits = []
+        for it in items:
+            if it[0] == "v":
+                t = self.truth(it[1])
+                hits.append(and_(it[2], t if want else not_(t)))
+            else:
+                t = self.truth(it[2])
+                hits.append(Op("exists", Const(it[1].lid), and_(it[3], t if want else not_(t))))
+        return or_(*hits)
+
+    def x_any(self, a, k, n):
+        q = self._quant(a, n, True)
+        return Op("call:any", *a) if q is None else q
+
+    def x_all(self, a, k, n):
+        q = self._quant(a, n, False)
+        return Op("call:all", *a) if q is None else not_(q)
 
     def x_slice(self, a, k, n):
         if len(a) == 1:
